@@ -107,6 +107,7 @@ def pipeline(G, ctx, nested, use_prop, N, key_int):
         p2 = G.seed(lambda p: resample(p, method="systematic"))(k[2], p1)
         if abs(float(p2.log_marginal_likelihood()) - lml1) > 1e-4 * (1 + abs(lml1)):
             ctx.property_failure(None, "resample changed log_marginal_likelihood", case)
+        particles_coherent(G, ctx, model, p2.traces, N, case, "after extend + resample")
         # rejuvenate: weights, accumulated estimate and diagnostics untouched
         sel = G.sel(("step", "x")) if nested else G.sel("x")
         p3 = G.seed(lambda p: rejuvenate(p, lambda t: mh(t, sel)))(k[3], p2)
@@ -135,6 +136,60 @@ def pipeline(G, ctx, nested, use_prop, N, key_int):
         ctx.property_failure(None, f"pipeline raised {type(ex).__name__}: {str(ex)[:200]}", case)
     ctx.case(sample=case if ctx.coverage["evaluations"] % 5 == 0 else None, nontrivial_key=(nested, use_prop, N, key_int))
     ctx.count(f"pipeline:{'nested' if nested else 'flat'}:{'proposal' if use_prop else 'default'}")
+
+
+def particles_coherent(G, ctx, model, traces, N, case, where):
+    """every particle is a coherent trace under the arguments STORED with it: log p(choices_j; args_j) = -score_j
+    (resampling must gather the per-particle arguments together with the choices)"""
+    import jax
+    args, kwargs = traces.get_args()
+    scores = np.asarray(jax.vmap(lambda t: t.get_score())(traces), dtype=np.float64)
+    ch = traces.get_choices()
+    for j in range(N):
+        cj = jax.tree_util.tree_map(lambda a: a[j], ch)
+        aj = jax.tree_util.tree_map(lambda a: a[j] if (np.ndim(a) >= 1 and np.shape(a)[0] == N) else a, args)
+        lp, _ = model.assess(cj, *aj, **kwargs)
+        if abs(float(lp) + scores[j]) > 1e-3 * (1 + abs(scores[j])):
+            ctx.property_failure(None, f"{where}: particle {j} is not coherent under its stored arguments: log p(choices; args) = {float(lp):.4f}, -score = {-scores[j]:.4f} "
+                                 "(the particle's arguments were not copied from its ancestor)", {**case, "particle": j})
+            return False
+    return True
+
+
+def partial_proposal(G, ctx, N, key_int):
+    """init with a custom proposal that covers only SOME of the latents: the rest is filled by the model's own proposal,
+    whose density must be divided out too: w = p(a, b, y) / (q(a) p(b | a))"""
+    import jax.numpy as jnp
+    import jax.random as jr
+    from genjax.inference.smc import init
+    normal = G.normal
+
+    @G.gen
+    def model():
+        a = normal(0.0, 1.0) @ "a"
+        b = normal(a, 1.0) @ "b"
+        y = normal(b, 0.5) @ "y"
+        return (b,)
+
+    @G.gen
+    def prop_a(constraints):
+        normal(0.3, 0.9) @ "a"
+
+    case = {"kind": "partial-proposal", "N": N, "key": key_int}
+    try:
+        p0 = G.seed(lambda: init(model, (), G.const(N), {"y": jnp.float32(0.7)}, prop_a))(jr.key(key_int))
+        ch = p0.traces.get_choices()
+        a, b = np.asarray(ch["a"], dtype=np.float64), np.asarray(ch["b"], dtype=np.float64)
+        lw = np.asarray(p0.log_weights, dtype=np.float64)
+        want = npdf(a, 0.0, 1.0) + npdf(0.7, b, 0.5) - npdf(a, 0.3, 0.9)
+        if not np.allclose(lw, want, rtol=1e-4, atol=1e-4):
+            ctx.property_failure(None, f"init with a proposal for only part of the latents: log weights {lw.tolist()} != log p(a) + log p(y|b) - log q(a) = {want.tolist()} "
+                                 "(the model's own proposal for the remaining latent must be divided out)", case)
+    except Exception as ex:
+        impl.reset_handlers()
+        ctx.property_failure(None, f"init with a partial proposal raised {type(ex).__name__}: {str(ex)[:200]}", case)
+    ctx.case(sample=case, nontrivial_key=("partial-proposal", N, key_int))
+    ctx.count("partial-proposal")
 
 
 def fq(x):
@@ -201,6 +256,8 @@ def shard(ctx, jobs):
     for j in jobs:
         if j[0] == "pipeline":
             pipeline(G, ctx, *j[1:])
+        elif j[0] == "partial":
+            partial_proposal(G, ctx, *j[1:])
         else:
             unbiased(G, ctx, *j[1:])
 
@@ -211,6 +268,7 @@ def run(ctx, audit):
         for use_prop in (False, True):
             for N in ((1, 2, 3, 5, 8) if ctx.thorough else (1, 3, 5)):
                 jobs.append(("pipeline", nested, use_prop, N, ctx.seed * 10 + N))
+    jobs += [("partial", 4, ctx.seed * 10 + 1), ("partial", 1, ctx.seed * 10 + 2)]
     runs = 6000 if ctx.thorough else 1500
     jobs += [("unbiased", runs, 4, True, False), ("unbiased", runs, 3, False, True), ("unbiased", runs, 1, False, False)]
     if ctx.thorough:
@@ -226,6 +284,8 @@ def replay(ctx, payload):
     c = payload.get("case") or {}
     if c.get("kind") == "pipeline":
         pipeline(G, ctx, c["nested"], c["proposal"], c["N"], c["key"])
+    elif c.get("kind") == "partial-proposal":
+        partial_proposal(G, ctx, c["N"], c["key"])
     elif c.get("kind") == "unbiased":
         unbiased(G, ctx, c["runs"], c["N"], c["kernel"], c["proposal"])
     for i in ctx.issues:
